@@ -30,6 +30,8 @@ def gen_key(rng, depth=0):
 def build_layout(sc, layout):
     """an RDD whose partitions are exactly `layout` (built through the public API)"""
     cur = len(layout)
+    if cur == 0:
+        return sc.union([])              # a dataset without partitions (what an empty batch of a stream is)
     if cur == 1:
         return sc.parallelize(list(layout[0]), 1)
     return sc.parallelize(list(range(cur)), cur).flatMap(lambda i: layout[i])
@@ -71,6 +73,9 @@ class C07(Prop):
         for cur in range(1, 8):
             for m in range(0, 10):
                 out.append({'op': 'repartition', 'layout': [[i] for i in range(cur)], 'm': m})
+        for m in range(1, 6):
+            out.append({'op': 'coalesce', 'layout': [], 'm': m})          # no partitions at all: min(m, 0) = 0 partitions
+            out.append({'op': 'repartition', 'layout': [], 'm': m})
         out.append({'op': 'children'})
         return out
 
@@ -145,7 +150,11 @@ class C07(Prop):
             cases.append({'pairs': [[F.to_json(k), j] for j, k in enumerate(ks)], 'n': 2 + i % 4, 'slices': 1 + i % 3})
         # float keys: compared across interpreters only
         fcases = [{'pairs': [[{'f': repr(x)}, i] for i, x in enumerate([0.5, -1.25, 1e10, 3.0, 2.5e-3, float(2 ** 70)])],
-                   'n': 4, 'slices': 2}]
+                   'n': 4, 'slices': 2},
+                  # NaN (alone and inside tuples): its builtin hash depends on the object's address since Python 3.10
+                  {'pairs': [[{'f': 'nan'}, 0], [{'t': [1, {'f': 'nan'}]}, 1], [{'t': ['k', {'t': [{'f': 'nan'}, None]}]}, 2],
+                             [{'f': 'inf'}, 3], [{'f': '-inf'}, 4], [{'f': '-0.0'}, 5], [0, 6]], 'n': 1000, 'slices': 2},
+                  {'pairs': [[{'f': 'nan'}, i] for i in range(5)], 'n': 7, 'slices': 3}]
         doc = json.dumps({'cases': cases + fcases})
         outs = {}
         for seed in ('0', '1', '2', 'random'):
@@ -170,7 +179,7 @@ class C07(Prop):
             if canon(rr['model']) != canon([[ {'t': kv} for kv in p] for p in ref[i]['layout']]):
                 return Mismatch('child layout differs from model', ref[i]['layout'], rr['model'], 'child-model')
         ctx.note('children:interpreters', 4)
-        ctx.note('children:keylists', len(cases) + 1)
+        ctx.note('children:keylists', len(cases) + len(fcases))
         return None
 
     @staticmethod
